@@ -4,13 +4,13 @@ B = 'github.com/ProjectSerenity/firefly/kbuild'
 
 PROP = {'pkg': 'github.com/ProjectSerenity/firefly/kernel/sync',
  'tests': [{'name': 'TestVerifC08',
-            'checks_quick': 3000,
-            'checks_thorough': 60000,
+            'checks_quick': 8000,
+            'checks_thorough': 300000,
             'shards_quick': 4,
             'shards_thorough': 8},
            {'name': 'TestVerifC08Stress',
-            'checks_quick': 60,
-            'checks_thorough': 1500,
+            'checks_quick': 120,
+            'checks_thorough': 4000,
             'shards_quick': 1,
             'shards_thorough': 1}],
  'rule': '(1) rapid generates a linear history of (worker, acquire|try|release) executed by hand-shake on per-worker '
